@@ -75,8 +75,8 @@ def signature(trace, idx, bad, after_o1=False):
     events, conf = trace["events"], trace["scenario"].get("conf", {})
     ev = events[idx]
     if bad.startswith("O3"):
-        m = re.search(r'msg="([^"]*)"|msg=(\S+)', ev.get("line", ""))
-        name = (m.group(1) or m.group(2)) if m else "?"
+        m = re.search(r'"msg":"([^"]*)"|msg="([^"]*)"|msg=(\S+)', ev.get("line", ""))     # JSON / text handler
+        name = (m.group(1) or m.group(2) or m.group(3)) if m else "?"
         kinds = "+".join(sorted(set(secret_kinds(ev.get("what", ""), o) for o in ev["owners"])))
         return "O3:%s:%s" % (kinds, name.replace(" ", "-"))
     to = ev["to"]
@@ -162,6 +162,8 @@ def assign_replay_dims(scns, seed):
         for name, vals in REPLAY_DIMS:
             s["conf"][name] = vals[k % len(vals)]
             k //= len(vals)
+        if s["conf"]["naming"] == "ip" and any(e["r"].get("to") == "Ac" for e in s["script"]):
+            s["conf"]["naming"] = ""      # an IP address has no mixed-case spelling
 
 
 def detect_switches(ctx):
